@@ -168,6 +168,18 @@ def configure(eng):
             has = st.ghost['has'].t
             st.ghost['has'] = VArr(z3.Store(has, obj.t, z3.K(Obj, z3.BoolVal(False))))
             return [(st, NONE)]
+        if isinstance(obj, VOpaque) and 'has' in st.ghost and name == 'pop' and len(args) == 1:
+            k = e.as_obj(args[0])
+            outs = []
+            for s2, present in e.branch(st, z3.Select(z3.Select(st.ghost['has'].t, obj.t), k), 'dict.pop'):
+                if present:
+                    v = VOpaque(z3.Select(z3.Select(s2.ghost['mem'].t, obj.t), k), nonnull=True)
+                    h2 = s2.ghost['has'].t
+                    s2.ghost['has'] = VArr(z3.Store(h2, obj.t, z3.Store(z3.Select(h2, obj.t), k, False)))
+                    outs.append((s2, v))
+                else:
+                    outs.append(e.exc(s2, 'KeyError', node))
+            return outs
         if isinstance(obj, VOpaque) and 'has' in st.ghost and name == 'pop' and len(args) == 2:
             k = e.as_obj(args[0])
             outs = []
